@@ -45,4 +45,27 @@ def groupSlots : List (Nat × (Nat × Rat)) → List ((Nat × Rat) × List Nat)
   | [] => []
   | (slot, key) :: rest => insertSlot key slot (groupSlots rest)
 
+/-- how `_add_edge_buffer` realises one delay slot `(d, s)` of a source variable whose edges go through the ODE-chain branch
+(one of them has a spread, or `dde_approx` is set) -/
+inductive SlotKind where
+  | through
+  | chain (order : Nat) (rate : Rat)
+  | ring (steps : Nat)
+  | history (delay : Rat)
+deriving DecidableEq, Repr
+
+def slotKind (adaptive : Bool) (dt d s : Rat) (ddeApprox : Nat) : SlotKind :=
+  let n := orderScalar d s ddeApprox
+  if 0 < n then .chain n (rate n d)
+  else if d = 0 then .through
+  else if adaptive then .history d
+  else
+    let k := (pyRound (d / dt)).toNat
+    if 1 < k then .ring k else .through
+
+/-- the behaviour before the repair: a slot of order 0 was passed through whatever its delay -/
+def slotKindOld (d s : Rat) (ddeApprox : Nat) : SlotKind :=
+  let n := orderScalar d s ddeApprox
+  if 0 < n then .chain n (rate n d) else .through
+
 end PyRates.Gamma
